@@ -245,6 +245,25 @@ def check_case(ctx, line, meta, hout, dout, iout, stats):
     return probs
 
 
+def replay_case(path):
+    """re-run the input recorded in a replay file (a kfcs sequence line or a single kfc line)"""
+    import json
+    line = json.load(open(path))["replay"]["input_line"]
+    t = line.split()
+    if t[0] == "kfc":
+        return (line, [line], {"style": "replay", "calls": 1})
+    n, m = int(t[1]), int(t[2])
+    p = 3
+    head = t[p:p + m * n + m * m]; p += m * n + m * m
+    ncalls = int(t[p]); p += 1
+    singles = []
+    for _ in range(ncalls):
+        k = int(t[p]); p += 1
+        ln = m + n * k + n * n * k + k
+        singles.append(" ".join(["kfc", str(n), str(m), str(k)] + head + t[p:p + ln])); p += ln
+    return (line, singles, {"style": "replay", "n": n, "m": m, "calls": ncalls})
+
+
 def run(ctx):
     ctx.proof_stage()
     binary = vlib.build_harness("h_kf")
@@ -258,6 +277,8 @@ def run(ctx):
                 cases.append((ln.strip(), [ln.strip()], {"style": "corpus", "calls": 1}))
     for i in range(N):
         cases.append(gen_case(g, ctx.tier, i))
+    if ctx.replay:
+        cases = [replay_case(ctx.replay)]
     hlines = [c[0] for c in cases]
     hout, logs = vlib.run_harness(binary, hlines)
     singles = [l for c in cases for l in c[1]]
